@@ -54,13 +54,21 @@ ReplyUndecodable == /\ pc = "dispatched" /\ req.body = "non_utf8"
                     /\ \/ reply' = [status |-> 400, ctype |-> "any", body |-> "any"]
                        \/ reply' = [status |-> StatusOf(req.statusfn, req.integ, Verdict("notjson")), ctype |-> "json", body |-> "parse_error"]
                     /\ pc' = "replied" /\ UNCHANGED <<req, execs>>
-Next == Refuse \/ Dispatch \/ (req.body # "non_utf8" /\ Reply) \/ ReplyUndecodable
+\* a documented media type whose charset parameter names NO known encoding: the statement does not say what a malformed
+\* parameter means - the request is dispatched (the body read as UTF-8, flask / werkzeug) or refused with 400 and nothing runs
+\* (aiohttp) - never a server error
+UnknownCharset == Acceptable(req.media) /\ req.media.variant = "charset_unknown"
+RefuseCharset == /\ pc = "recv" /\ UnknownCharset
+                 /\ reply' = [status |-> 400, ctype |-> "any", body |-> "any"] /\ pc' = "replied"
+                 /\ UNCHANGED <<req, execs>>
+Next == Refuse \/ RefuseCharset \/ Dispatch \/ (req.body # "non_utf8" /\ Reply) \/ ReplyUndecodable
 Spec == [][Next]_vars
 
 (******************************* properties *********************************)
 RefuseExecutesNothing == (pc = "replied" /\ ~Acceptable(req.media)) => (reply.status = 415 /\ execs = 0)
-RelayExact == (pc = "replied" /\ Acceptable(req.media) /\ req.body # "non_utf8") =>
+RelayExact == (pc = "replied" /\ Acceptable(req.media) /\ req.body # "non_utf8" /\ ~(UnknownCharset /\ reply.status = 400)) =>
                  IF Verdict(req.body).doc = "nothing" THEN reply.status = 200 /\ reply.body = "empty"
                  ELSE reply.body = "same" /\ reply.ctype = "json" /\ reply.status = StatusOf(req.statusfn, req.integ, Verdict(req.body))
-ExecsAsDispatcher == pc = "replied" => execs = (IF Acceptable(req.media) THEN Verdict(req.body).execs ELSE 0)
+ExecsAsDispatcher == pc = "replied" => execs = (IF Acceptable(req.media) /\ ~(UnknownCharset /\ reply.status = 400) THEN Verdict(req.body).execs ELSE 0)
+UnknownCharsetNeverFails == (pc = "replied" /\ UnknownCharset) => reply.status < 500
 =============================================================================
